@@ -6,6 +6,13 @@
 //        neighbouring seeds with different path signature are bisected on the integer
 //        representation of t down to adjacent doubles; +-W ulp on both sides evaluated.
 //   list
+//   consts                      prints "C <NAME> <value>" for the SM masses of gm2_constants.hpp (C02)
+//   xfset <fn> <deg> <nt> { <perm[nargs]> <k> } * nt          (C02: symmetry / homogeneity relations)
+//        registers transforms for <fn>: args'_i = args[perm_i] * k, expected f(args') = k^deg * f(args).
+//        Every P line of that function is then followed by " X <m> {<idx> <value>}*m": the transforms
+//        whose value, scaled back by k^-deg, is not bitwise equal to the base value (k = 1 or a power
+//        of two: exact rescaling; other k: always listed, the driver judges the difference).
+//        Transform evaluations are not recorded in the path signature.
 // Output per evaluation:  P <tag> <t> <args...> <outs...> <sig>     tag: S seed, B boundary, N neighbour
 //   boundaries:           BD <t_lo> <t_hi> <sig_lo> <sig_hi>
 //   caps:                 CAP <what>
@@ -13,6 +20,7 @@
 #include "covsig.hpp"
 #include "gm2_ffunctions.hpp"
 #include "gm2_dilog.hpp"
+#include "gm2_constants.hpp"
 #include <algorithm>
 #include <cinttypes>
 #include <cmath>
@@ -55,6 +63,30 @@ static double rd() { std::string s; if (!(std::cin >> s)) std::exit(3); return s
 struct Line { const Fn* fn; std::vector<double> base, coef; };
 static unsigned long nevals = 0;
 
+// ---- C02: registered argument transforms (permutation + common scale factor) per function
+struct Xf { int perm[6]; double k; bool pow2; int e2; };
+struct XfSet { int deg = 0; std::vector<Xf> t; };
+static std::map<const Fn*, XfSet> xfs;
+static bool same(double a, double b) { return (std::isnan(a) && std::isnan(b)) || (a == b && std::signbit(a) == std::signbit(b)) || (a == 0 && b == 0); }
+static void emit_xf(const Fn& fn, const double* a, const double* o) {
+   auto it = xfs.find(&fn); if (it == xfs.end()) return;
+   const XfSet& S = it->second;
+   std::vector<std::pair<int,double>> bad;
+   covsig::recording = false;
+   for (size_t j = 0; j < S.t.size(); j++) {
+      const Xf& x = S.t[j];
+      double b[6], v[2];
+      for (int i = 0; i < fn.nargs; i++) b[i] = a[x.perm[i]] * x.k;
+      fn.f(b, v); nevals++;
+      if (x.k == 1.0) { if (!same(v[0], o[0])) bad.push_back({(int)j, v[0]}); }
+      else if (x.pow2) { if (!same(std::ldexp(v[0], -S.deg * x.e2), o[0])) bad.push_back({(int)j, v[0]}); }
+      else bad.push_back({(int)j, v[0]});
+   }
+   covsig::recording = true;
+   std::printf(" X %zu", bad.size());
+   for (auto& p : bad) std::printf(" %d %a", p.first, p.second);
+}
+
 static uint64_t evalpt(const Fn& fn, const double* a, double* o) {
    covsig::reset(); fn.f(a, o); nevals++; return covsig::hash();
 }
@@ -62,7 +94,9 @@ static void emit(char tag, double t, const Fn& fn, const double* a, const double
    std::printf("P %c %a", tag, t);
    for (int i = 0; i < fn.nargs; i++) std::printf(" %a", a[i]);
    for (int i = 0; i < fn.nouts; i++) std::printf(" %a", o[i]);
-   std::printf(" %016" PRIx64 "\n", s);
+   std::printf(" %016" PRIx64, s);
+   emit_xf(fn, a, o);
+   std::printf("\n");
 }
 static uint64_t evalline(const Line& L, double t, char tag, bool print) {
    double a[6], o[2];
@@ -91,6 +125,19 @@ int main() {
    while (std::cin >> cmd) {
       if (cmd == "list") {
          for (auto& e : reg) std::printf("FN %s %d %d\n", e.first.c_str(), e.second.nargs, e.second.nouts);
+      } else if (cmd == "consts") {
+         std::printf("C MU %a\nC MC %a\nC MT %a\nC MD %a\nC MS %a\nC MB %a\nC ME %a\nC MM %a\nC ML %a\nC MW %a\nC MZ %a\n",
+                     MU, MC, MT, MD, MS, MBMB, ME, MM, ML, MW, MZ);
+      } else if (cmd == "xfset") {
+         std::string name; int deg, nt; std::cin >> name >> deg >> nt;
+         auto it = reg.find(name); if (it == reg.end()) { std::printf("ERR unknown %s\n", name.c_str()); return 2; }
+         XfSet S; S.deg = deg;
+         for (int j = 0; j < nt; j++) {
+            Xf x; for (int i = 0; i < it->second.nargs; i++) { std::cin >> x.perm[i]; if (x.perm[i] < 0 || x.perm[i] >= it->second.nargs) { std::printf("ERR perm\n"); return 2; } }
+            x.k = rd(); int e; double m = std::frexp(x.k, &e); x.pow2 = (m == 0.5); x.e2 = e - 1;
+            S.t.push_back(x);
+         }
+         xfs[&it->second] = S;
       } else if (cmd == "pts") {
          std::string name; long n; std::cin >> name >> n;
          auto it = reg.find(name); if (it == reg.end()) { std::printf("ERR unknown %s\n", name.c_str()); return 2; }
